@@ -127,9 +127,6 @@ def run(ctx):
             canon, ex, findings, rc = read_layout(p, crate, fn)
             guards = [parse_guard(c) for c in ex.guards]
             size_guards = [x for x in guards if x[0] in ("ne", "range", "gt")]
-            if lo == hi == 0:
-                # empty bodies are checked by assert_empty in the opcode reader (C04)
-                continue
             if not size_guards:
                 if ex.panics:
                     continue
